@@ -77,6 +77,30 @@ func main() {
 		Must(f.Close())
 	}
 	inFile := 0
+	// directed programs, always run first: the default INTO projection after an earlier COLLECT
+	// of the same loop, FOR-WHILE conditions that mention the loop's own counter, the ignore variable
+	arr122 := fqlast.Arr(fqlast.Int(1), fqlast.Int(2), fqlast.Int(2))
+	collect := func(groups []fqlast.Group, tail fqlast.Tail) fqlast.Clause {
+		return fqlast.Clause{K: "collect", Groups: groups, Tail: tail}
+	}
+	forIn := func(v string, body []fqlast.Clause, ret *fqlast.E) *fqlast.Program {
+		return &fqlast.Program{For: &fqlast.For{Val: v, Src: arr122, Body: body, Ret: &fqlast.Ret{E: ret}}}
+	}
+	while := func(v string, do bool, cond *fqlast.E, stmts ...fqlast.Stmt) *fqlast.Program {
+		return &fqlast.Program{Stmts: stmts, For: &fqlast.For{While: true, DoFirst: do, Val: v, Cond: cond, Ret: &fqlast.Ret{E: fqlast.Var(v)}}}
+	}
+	corpus := []*fqlast.Program{
+		forIn("i", []fqlast.Clause{collect([]fqlast.Group{{Name: "a", E: fqlast.Var("i")}}, fqlast.Tail{}), collect([]fqlast.Group{{Name: "b", E: fqlast.Var("a")}}, fqlast.Tail{K: "into", Name: "g"})}, fqlast.Arr(fqlast.Var("b"), fqlast.Var("g"))),
+		forIn("i", []fqlast.Clause{collect([]fqlast.Group{{Name: "a", E: fqlast.Var("i")}}, fqlast.Tail{K: "into", Name: "g"})}, fqlast.Arr(fqlast.Var("a"), fqlast.Var("g"))),
+		forIn("i", []fqlast.Clause{collect(nil, fqlast.Tail{K: "count", Name: "c"}), collect([]fqlast.Group{{Name: "x", E: fqlast.Var("c")}}, fqlast.Tail{K: "into", Name: "g"})}, fqlast.Var("g")),
+		forIn("i", []fqlast.Clause{collect([]fqlast.Group{{Name: "a", E: fqlast.Var("i")}}, fqlast.Tail{}), collect([]fqlast.Group{{Name: "b", E: fqlast.Var("a")}}, fqlast.Tail{K: "into", Name: "g", Proj: fqlast.Var("a")})}, fqlast.Arr(fqlast.Var("b"), fqlast.Var("g"))),
+		forIn("_", []fqlast.Clause{collect([]fqlast.Group{{Name: "a", E: fqlast.Int(1)}}, fqlast.Tail{K: "into", Name: "g"})}, fqlast.Var("g")),
+		while("i", false, fqlast.Cmp("<", fqlast.Var("i"), fqlast.Int(3))),
+		while("i", true, fqlast.Cmp("<", fqlast.Var("i"), fqlast.Int(0))),
+		while("i", false, fqlast.Cmp("<", fqlast.Var("i"), fqlast.Int(3)), fqlast.Stmt{Let: true, Name: "i", E: fqlast.Int(5)}),
+		while("j", false, fqlast.Cmp("<", fqlast.Var("i"), fqlast.Int(3)), fqlast.Stmt{Let: true, Name: "i", E: fqlast.Int(5)}),
+		{Stmts: []fqlast.Stmt{{Let: true, Name: "r", E: &fqlast.E{K: "sub", Q: while("i", false, fqlast.Cmp("<", fqlast.Var("i"), fqlast.Int(3))).For}}}, Ret: fqlast.Var("r")},
+	}
 	for i := 0; i < n; i++ {
 		if inFile == 0 {
 			open(len(files))
@@ -87,6 +111,9 @@ func main() {
 			g.Wild, g.Redecl = 0, 0 // a share of certainly well-scoped programs
 		}
 		p := g.Program()
+		if i < len(corpus) {
+			p = corpus[i]
+		}
 		for k, v := range g.Stats {
 			m.Distribution[k] += v
 		}
